@@ -94,9 +94,11 @@ STAT_OPS = ["hs", "hs_notail", "hrms", "tm01", "tm02", "dm", "dspr", "tp", "tp_r
 TRANSFORM_OPS = ["smooth33", "smooth35", "interp_fd", "interp_like", "rotate45", "rotate_m20", "split_f", "split_fd", "scale_by_hs"]
 RULE_PART_OPS = ["ptm4", "ptm5", "bbox"]
 WATERSHED_OPS = ["ptm1", "ptm2", "ptm3", "ptm1_smooth", "ptm2_smooth", "ptm3_smooth"]
-ALL_OPS = STAT_OPS + TRANSFORM_OPS + RULE_PART_OPS + WATERSHED_OPS
+ALL_OPS = STAT_OPS + TRANSFORM_OPS + RULE_PART_OPS + WATERSHED_OPS + ["rmse_rolled"]
 # iterative least-squares fits (results compared at 1e-4: float32 outputs of an optimiser) and the dispersion helpers
 FIT_OPS = ["fit_jonswap", "fit_gaussian", "celerity", "wavelen"]
+# a statistic of two spectra: the other operand is the same labelled spectrum times 1.5 stored with the directions rolled by three bins
+PAIR_OPS = ["rmse_rolled"]
 TRACK_OPS = ["ptm1_track"]      # winds are chunked like the spectra (see call)
 
 
@@ -136,9 +138,14 @@ def call(da, op, ds_accessor=False):
         return s.split(fmin=0.1, fmax=0.3, dmin=40.0, dmax=200.0)
     if op == "scale_by_hs":
         return s.scale_by_hs("0.5*hs+1", hs_min=1.0)
-    if op not in ("ptm1", "ptm1_smooth", "ptm2", "ptm2_smooth", "ptm3", "ptm3_smooth", "ptm4", "ptm5", "bbox", "ptm1_track"):
+    if op not in ("ptm1", "ptm1_smooth", "ptm2", "ptm2_smooth", "ptm3", "ptm3_smooth", "ptm4", "ptm5", "bbox", "ptm1_track", "rmse_rolled"):
         return getattr(s, op)()
     w = wind_args(da) if op in ("ptm1", "ptm1_smooth", "ptm2", "ptm2_smooth", "ptm4") else None
+    if op == "rmse_rolled":
+        other = (da * 1.5)
+        if "dir" in other.dims:
+            other = other.roll(dir=3, roll_coords=True)
+        return s.rmse(other)
     if op == "ptm1_track":
         # tracking needs real time stamps: three-hourly records
         stamps = np.datetime64("2020-01-01T00:00:00") + (np.arange(da.sizes["time"]) * 10800).astype("timedelta64[s]")
